@@ -232,7 +232,9 @@ def run_shard(ctx):
             # the same statement against an integration whose name is not ASCII (lower() and casefold() disagree on it), spelled
             # `außen1` in the statement and `Außen1` in the catalog; the reference still runs the int1 text
             # (or whose name is a fragment of the reserved pseudo-database names `files` / `views`)
-            want_int = ['außen1', 'view', 'file', 'iles', 'außen1'][(idx // 7) % 5]
+            # (or a single letter - of the default project's name, or another)
+            names = ['außen1', 'view', 'file', 'iles', 'außen1', 'm', 'd', 's', 'b', 'i', 'n', 'x', 'p']
+            want_int = names[(idx // 7) % len(names)]
             cat_name = want_int.capitalize()
             plan_text = text.replace('int1.', f'`{want_int}`.')
             kw = copy.deepcopy(kw)
